@@ -209,6 +209,18 @@ CHECKS = {
                      "reported separately and are not part of the exhaustive claim.",
                 note="finite lattice of doubles; float slack 1e-12",
                 ref="3/C19"),
+    "C20": dict(cat="exploration", tech="exhaustive enumeration of toolbox calls x inputs x every measurement outcome branch through the full SDK-to-controller pipeline on an exact state vector; operators reconstructed column by column",
+                text="toffoli_gate is reconstructed as a full 8x8 operator from the 8 basis inputs (prepared exactly in the harness) for all 6 "
+                     "assignments of (control1, control2, target) to virtual ids and compared with Toffoli up to one global phase, "
+                     "t_inverse as a 2x2 operator with T-dagger; set_qubit_state over (theta, phi) in {k*pi/8}^2 with +-1e-3 offsets; "
+                     "parity_meas for all 4+16+64 Pauli strings, with and without leading minus, on all computational basis states, "
+                     "products over {0,1,+,-,+i,-i} (all for <=2 qubits; 27+ sublattice for 3 in quick, all 216 in thorough) and "
+                     "Bell/GHZ/entangled probes, taking EVERY outcome branch: the returned value must be a possible parity (sign "
+                     "applied), the post-measurement state must be the projection of the input on that eigenspace, the ancilla must be "
+                     "freed. All of it on the vanilla pipeline and on NV config + NV transpiler + NV flavour controller.",
+                note="state-vector backend = the harness (exact); create_ghz is not in the property statement; inputs are probes, operators "
+                     "(toffoli, t_inverse) are covered for all states by linearity",
+                ref="3/C20"),
 }
 
 PENDING = {
